@@ -13,7 +13,7 @@ C == Cases[tid]
 TInit == /\ tid \in 1..Len(Cases) /\ verdict = "ok"
          /\ prog = [p \in 1..NP |-> Cases[tid].prog[p]] /\ auth = Cases[tid].auth /\ ending = Cases[tid].ending
          /\ pc = "auth" /\ i = 1 /\ r = 1 /\ tags = <<>> /\ rtags = <<>> /\ nhcr = [p \in 1..NP |-> 0] /\ calls = <<>>
-         /\ conn = "none" /\ doconn = TRUE /\ fwd = <<>> /\ out = <<>> /\ closed = FALSE
+         /\ conn = "none" /\ doconn = TRUE /\ fwd = <<>> /\ out = <<>> /\ closed = FALSE /\ dest = 0
 
 Show(c) == "plugin " \o ToString(c.p) \o " " \o c.h \o " seeing " \o ToString(c.seen)
 \* after a model step: the newest model call must be the logged call at the same position
@@ -29,6 +29,8 @@ EndWhy ==
     IF Len(C.calls) > Len(calls') THEN "C09 the execution made a hook call beyond what the chaining semantics allow: " \o Show(C.calls[Len(calls') + 1])
     ELSE IF (conn' = "none") # (C.nconnect = 0) THEN
          IF C.nconnect = 0 THEN "C09 no upstream connection although no plugin suppressed it" ELSE "C09 upstream contacted although a plugin suppressed or rejected the request (or authentication failed)"
+    ELSE IF C.nconnect > 0 /\ C.dest # dest' THEN "C09 the upstream connection went to " \o (IF C.dest = 0 THEN "the address the request names" ELSE IF C.dest < 0 THEN "an unexpected address" ELSE "the address of plugin " \o ToString(C.dest))
+                               \o " where the resolve_dns chain (first plugin naming an address wins) gives " \o (IF dest' = 0 THEN "the address the request names" ELSE "the address of plugin " \o ToString(dest'))
     ELSE IF C.fwd # fwd' THEN "C09 the requests forwarded to the origin (and the modifications they carry) differ from the chaining semantics: got "
                                \o ToString(C.fwd) \o " expected " \o ToString(fwd')
     ELSE IF C.out # out' THEN "C09 what the client was sent differs from the chaining semantics: got " \o ToString(C.out) \o " expected " \o ToString(out')
